@@ -359,12 +359,15 @@ def run(ctx):
         # be path-less ("https://host", "https://"), there only a trailing '/' of the *path* counts
         recv = r"^(self\.bytes|\w+::path(_bytes)?\(self\))$" if fn.endswith("Rsync::join") else r"^\w+::path(_bytes)?\(self\)$"
         ew = pred_matcher(r"ends_with$", (recv, r"^(b'/'|47)$"))
+        # the same fact spelt on the last byte: `x.last() == Some(&b'/')` (either operand order, `!=` with swapped arms)
+        lastb = eq_matcher(r"^slice::last\((?:%s)\)$" % recv.strip("^$"), r"^option::Option::Some\{0: 47\}$")
         edges = set()
         for bi, blk in enumerate(b.blocks):
             if blk["term"]["t"] == "switch":
-                e = guard_edges(b, sym, bi, ew)
-                if e:
-                    edges.update(e)
+                for g_ in (ew, lastb):
+                    e = guard_edges(b, sym, bi, g_)
+                    if e:
+                        edges.update(e)
         ok = len(appends) == 1
         detail = None
         if ok:
